@@ -62,7 +62,7 @@ pub fn property() -> Property {
       "the plugin API passes no partitions (documented as unsupported), so every entity is in the default (empty string) partition: a criterion without a <partitions> list applies to it, one with a list applies iff one of its patterns matches the empty string",
       "Topic entity kind: asserted only when the topic rule's read and write access control flags agree (specification and code read the mixed case differently)",
       "an alteration outside the signed content (MIME preamble, boundary lines, base64 of the signature block, which also carries unsigned material) may be accepted or rejected; it is counted separately",
-      "the wall clock is read by the plugin (validity windows): generated windows are decades away from now",
+      "the wall clock is read by the plugin (validity windows): generated bounds are either decades away from now, or written relative to the clock read at the start of the case with a margin of at least 45 minutes and an explicit UTC offset, so the verdict does not depend on when the case runs",
     ],
     scenarios: &[
       Scenario {
@@ -190,6 +190,9 @@ enum Validity {
 struct Grant {
   me: bool,
   validity: Validity,
+  /// Some((UTC offset in minutes, margin in minutes)): the bound that decides the validity is
+  /// written `margin` away from the current time, in a time zone with that offset
+  zone: Option<(i32, i64)>,
   rules: Vec<Rule>,
   default_allow: bool,
 }
@@ -278,12 +281,41 @@ fn glob(p: &[u8], s: &[u8]) -> bool {
   }
 }
 
-fn validity_xml(v: Validity) -> &'static str {
-  match v {
-    Validity::Now => "<validity><not_before>2001-01-01T00:00:00</not_before><not_after>2200-01-01T00:00:00</not_after></validity>",
-    Validity::Expired => "<validity><not_before>2001-01-01T00:00:00</not_before><not_after>2002-01-01T00:00:00</not_after></validity>",
-    Validity::NotYet => "<validity><not_before>2190-01-01T00:00:00</not_before><not_after>2200-01-01T00:00:00</not_after></validity>",
+fn validity_xml(v: Validity, zone: Option<(i32, i64)>) -> String {
+  let (nb, na) = match zone {
+    None => match v {
+      Validity::Now => ("2001-01-01T00:00:00".to_string(), "2200-01-01T00:00:00".to_string()),
+      Validity::Expired => ("2001-01-01T00:00:00".to_string(), "2002-01-01T00:00:00".to_string()),
+      Validity::NotYet => ("2190-01-01T00:00:00".to_string(), "2200-01-01T00:00:00".to_string()),
+    },
+    Some((offset_min, margin_min)) => {
+      let tz = chrono::FixedOffset::east_opt(offset_min * 60).expect("offset");
+      let now = chrono::Utc::now();
+      let at = |minutes: i64| {
+        (now + chrono::Duration::minutes(minutes))
+          .with_timezone(&tz)
+          .to_rfc3339_opts(chrono::SecondsFormat::Secs, false)
+      };
+      match v {
+        Validity::Now => (at(-margin_min), at(margin_min)),
+        Validity::Expired => ("2001-01-01T00:00:00".to_string(), at(-margin_min)),
+        Validity::NotYet => (at(margin_min), "2200-01-01T00:00:00".to_string()),
+      }
+    }
+  };
+  format!("<validity><not_before>{nb}</not_before><not_after>{na}</not_after></validity>")
+}
+
+/// Not a draw of its own (the documents are written before the last draws, and stored inputs must
+/// keep decoding): a function of what was drawn for the grant.
+fn zone_for(rules: &[Rule], index: usize) -> Option<(i32, i64)> {
+  let h = fnv(format!("{rules:?}{index}").as_bytes());
+  if h % 5 < 2 {
+    return None;
   }
+  let offset = [330, -480, 840, -720, 60, -210, 540, -300, 0, 765][(h >> 8) as usize % 10];
+  let margin = [45, 45, 120, 600][(h >> 16) as usize % 4];
+  Some((offset, margin))
 }
 
 fn crit_xml(tag: &str, cr: &Crit) -> String {
@@ -306,7 +338,7 @@ fn crit_xml(tag: &str, cr: &Crit) -> String {
 fn permissions_xml(grants: &[Grant]) -> String {
   let mut s = String::from("<?xml version=\"1.0\" encoding=\"UTF-8\"?>\n<dds>\n<permissions>\n");
   for (i, g) in grants.iter().enumerate() {
-    s.push_str(&format!("<grant name=\"g{i}\">\n<subject_name>{}</subject_name>\n{}\n", if g.me { ME } else { SOMEBODY_ELSE }, validity_xml(g.validity)));
+    s.push_str(&format!("<grant name=\"g{i}\">\n<subject_name>{}</subject_name>\n{}\n", if g.me { ME } else { SOMEBODY_ELSE }, validity_xml(g.validity, g.zone)));
     for r in &g.rules {
       let tag = if r.allow { "allow_rule" } else { "deny_rule" };
       s.push_str(&format!("<{tag}><domains>"));
@@ -408,6 +440,7 @@ pub fn run(scenario: u32, choices: &[u8], _strict: bool) -> Outcome {
     .map(|_| Grant {
       me: !c.chance(50),
       validity: [Validity::Now, Validity::Now, Validity::Now, Validity::Now, Validity::Now, Validity::Expired, Validity::NotYet][c.pick(7)],
+      zone: None,
       rules: (0..1 + c.pick(4))
         .map(|_| Rule {
           allow: c.bool(),
@@ -424,6 +457,7 @@ pub fn run(scenario: u32, choices: &[u8], _strict: bool) -> Outcome {
     .map(|_| Grant {
       me: !c.chance(40),
       validity: [Validity::Now, Validity::Now, Validity::Now, Validity::Now, Validity::Expired, Validity::NotYet][c.pick(6)],
+      zone: None,
       rules: (0..1 + c.pick(3))
         .map(|_| Rule {
           allow: c.bool(),
@@ -435,6 +469,20 @@ pub fn run(scenario: u32, choices: &[u8], _strict: bool) -> Outcome {
       default_allow: c.bool(),
     })
     .collect();
+  let zoned = |gs: Vec<Grant>, base: usize| -> Vec<Grant> {
+    gs.into_iter()
+      .enumerate()
+      .map(|(i, mut g)| {
+        g.zone = zone_for(&g.rules, base + i);
+        g
+      })
+      .collect()
+  };
+  let grants = zoned(grants, 0);
+  let remote_grants = zoned(remote_grants, 10);
+  if grants.iter().chain(remote_grants.iter()).any(|g| g.me && matches!(g.zone, Some((z, _)) if z != 0)) {
+    o.label("validity-bound-near-now-with-utc-offset");
+  }
   let gxml = governance_xml(&gov);
   let pxml = permissions_xml(&grants);
   o.sample = format!("domain={domain} governance={gov:?} grants={grants:?} remote_grants={remote_grants:?}");
@@ -717,6 +765,7 @@ fn tamper(c: &mut Choices, o: &mut Outcome) {
   let grants = vec![Grant {
     me: true,
     validity: Validity::Now,
+    zone: None,
     rules: vec![Rule {
       allow: true,
       domains: vec![Dom::Value(0)],
